@@ -532,6 +532,8 @@ class Interp:
         try:
             node = fn.node
             env = dict(fn.env)
+            env.pop('#nonlocal', None)
+            env['#outer'] = fn.env          # (for `nonlocal` stores)
             params = [a.arg for a in node.args.args]
             if isinstance(node, ast.Lambda):
                 if node.args.vararg is not None:
@@ -701,6 +703,9 @@ class Interp:
                         return slice(*[mod_.fold(a_, '') for a_ in node_.args])
                     except Exception:      # pylint: disable=broad-except
                         pass
+                if isinstance(node_, ast.Call) and norm(node_.func) in ('operator.attrgetter', 'attrgetter', 'operator.itemgetter', 'itemgetter') and len(node_.args) == 1 \
+                        and isinstance(node_.args[0], ast.Constant) and not node_.keywords:
+                    return ('attrgetter' if norm(node_.func).endswith('attrgetter') else 'itemgetter', node_.args[0].value)
                 if isinstance(node_, ast.Call) and norm(node_.func) in ('struct.Struct', 'Struct') and len(node_.args) == 1 and not node_.keywords:
                     try:
                         fmt_ = mod_.fold(node_.args[0], '')
@@ -814,6 +819,10 @@ class Interp:
                     return ('structmethod', base[1], e.attr)
             if isinstance(base, tuple) and base and base[0] == 'record' and e.attr in base[2]:
                 return base[3][base[2].index(e.attr)]
+            if isinstance(base, tuple) and len(base) == 4 and base[0] == 'record' and isinstance(base[1], str) and base[1] in h.module.classes \
+                    and h.module.method(base[1], e.attr) is not None:
+                m_ = h.module.method(base[1], e.attr)          # a method of a named-tuple class of the module, bound to the record
+                return Closure(m_.node, {}, base, m_.cls)
             if isinstance(base, SStr):
                 return ('symmethod', base, e.attr)
             if isinstance(base, Key) and e.attr in ('endswith', 'startswith', 'strip', 'lstrip', 'rstrip', 'lower', 'upper', 'split', 'partition', 'splitlines', 'find',
@@ -889,6 +898,22 @@ class Interp:
                     return res if isinstance(op, ast.In) else not res
             if isinstance(l, int) and isinstance(r, int):
                 return {ast.Lt: l < r, ast.LtE: l <= r, ast.Gt: l > r, ast.GtE: l >= r}[type(op)]
+            if isinstance(op, (ast.Lt, ast.LtE, ast.Gt, ast.GtE)):
+                # two lists / two tuples of decided numbers or texts: Python's lexicographic order; two decided texts: code point order
+                def plain_(v_):
+                    if h.is_list(v_):
+                        return [plain_(x_) for x_ in h.items(v_)]
+                    if isinstance(v_, tuple) and not (v_ and isinstance(v_[0], str) and v_[0] in ('regex', 'record', 'partial', 'class', 'hook', 'extern')):
+                        return tuple(plain_(x_) for x_ in v_)
+                    if isinstance(v_, (int, str, bytes)) and not isinstance(v_, bool):
+                        return v_
+                    raise AnalysisError('heap model: comparison %s' % norm(e))
+                pl_, pr_ = plain_(l), plain_(r)
+                if type(pl_) is type(pr_):
+                    try:
+                        return {ast.Lt: pl_ < pr_, ast.LtE: pl_ <= pr_, ast.Gt: pl_ > pr_, ast.GtE: pl_ >= pr_}[type(op)]
+                    except TypeError:
+                        raise Raised('TypeError', h.version, e.lineno)
             raise AnalysisError('heap model: comparison %s' % norm(e))
         if isinstance(e, ast.BoolOp):
             v = None
@@ -937,6 +962,14 @@ class Interp:
                 return l * r
             if isinstance(e.op, ast.Mult) and isinstance(r, str) and isinstance(l, int) and not isinstance(l, bool) and l <= 4096:
                 return l * r
+            if isinstance(e.op, ast.Mult):
+                # [x] * n / n * [x] / (x,) * n: a new list (tuple) of n times the items (a count below one gives the empty one)
+                seq_, cnt_ = (l, r) if not (isinstance(l, int) and not isinstance(l, bool)) else (r, l)
+                if isinstance(cnt_, int) and not isinstance(cnt_, bool) and cnt_ <= 4096:
+                    if h.is_list(seq_):
+                        return h.new_list(list(h.items(seq_)) * max(cnt_, 0))
+                    if isinstance(seq_, tuple) and not (seq_ and isinstance(seq_[0], str) and seq_[0] in ('regex', 'record', 'partial', 'class', 'hook', 'extern')):
+                        return seq_ * max(cnt_, 0)
         if isinstance(e, ast.Lambda):
             return Closure(e, dict(env), None, cls)
         if isinstance(e, (ast.GeneratorExp, ast.ListComp, ast.DictComp, ast.SetComp)) and not any(g.is_async for g in e.generators):
@@ -1189,6 +1222,11 @@ class Interp:
             while k_ < len(items_) and self.truth(self.apply(args[0], [items_[k_]])):
                 k_ += 1
             return items_[k_:] if norm(fn).endswith('dropwhile') else items_[:k_]
+        if norm(fn) in ('itertools.zip_longest', 'zip_longest') and norm(fn).split('.')[0] not in env and args and set(kwargs) <= {'fillvalue'}:
+            seqs_ = [self.seq(a_) for a_ in args]
+            fill_ = kwargs.get('fillvalue')
+            n_ = max(len(x_) for x_ in seqs_)
+            return [tuple(x_[i_] if i_ < len(x_) else fill_ for x_ in seqs_) for i_ in range(n_)]
         if norm(fn) in ('itertools.chain', 'chain') and 'chain' not in env:
             out_ = []
             for a in args:
@@ -1599,6 +1637,14 @@ class Interp:
                     return items.pop(args[0] if args else -1)
             if isinstance(base, str) and fn.attr == 'format' and getattr(h, 'symbolic_strings', False):
                 return self.sym_format_braces(base, args, kwargs)
+            if isinstance(base, tuple) and fn.attr in ('count', 'index') and len(args) == 1 and not kwargs \
+                    and not (base and isinstance(base[0], str) and base[0] in ('regex', 'record', 'partial', 'class', 'hook', 'extern', 'builtin', 'namedtuple', 'struct')):
+                hits_ = [i_ for i_, x_ in enumerate(base) if self.same_value(x_, args[0])]
+                if fn.attr == 'count':
+                    return len(hits_)
+                if not hits_:
+                    raise Raised('ValueError', h.version, e.lineno)
+                return hits_[0]
             if isinstance(base, str) and fn.attr in ('count', 'index') and all(isinstance(a_, (str, int)) for a_ in args) and not kwargs:
                 try:
                     return getattr(base, fn.attr)(*args)          # of a decided text: CPython's own str decides
@@ -1623,6 +1669,23 @@ class Interp:
             init = h.module.method(fn.id, '__init__')
             if init is not None:
                 self.call(Closure(init.node, {}, ref, init.cls), args, kwargs)
+            elif h.module.method(fn.id, '__new__') is None:
+                # class X(collections.namedtuple('X', 'a b')) without constructor of its own: the fields from the arguments
+                for b_ in h.module.classes[fn.id].bases:
+                    if isinstance(b_, ast.Call) and norm(b_.func) in ('collections.namedtuple', 'namedtuple') and len(b_.args) == 2:
+                        try:
+                            fields_ = h.module.fold(b_.args[1], '') if hasattr(h.module, 'fold') else ast.literal_eval(b_.args[1])
+                        except Exception:      # pylint: disable=broad-except
+                            fields_ = None
+                        if isinstance(fields_, str):
+                            fields_ = fields_.replace(',', ' ').split()
+                        if fields_:
+                            vals_ = list(args) + [kwargs[n_] for n_ in fields_[len(args):] if n_ in kwargs]
+                            if len(vals_) != len(fields_):
+                                raise Raised('TypeError', h.version, e.lineno)
+                            for n_, v_ in zip(fields_, vals_):
+                                h.objs[ref.name][n_] = v_
+                            h.objs[ref.name]['#fields'] = tuple(fields_)
             return ref
         if isinstance(fn, ast.Name) and fn.id == 'len' and len(args) == 1 and isinstance(args[0], Ref):
             o = h.objs[args[0].name]
@@ -1710,6 +1773,8 @@ class Interp:
                 return h.new_list(r)
             return r
         if isinstance(f, tuple) and len(f) == 3 and f[0] == 'structmethod':
+            return self.apply(f, args, kwargs)
+        if isinstance(f, tuple) and len(f) == 2 and f[0] in ('attrgetter', 'itemgetter') and not isinstance(fn, ast.Attribute):
             return self.apply(f, args, kwargs)
         if isinstance(f, Ref) and h.objs[f.name]['__class__'] in h.module.classes and h.module.method(h.objs[f.name]['__class__'], '__call__') is not None:
             return self.apply(f, args, kwargs)
@@ -2248,6 +2313,12 @@ class Interp:
                 else:
                     env[nm_] = ('extern', '%s.%s' % (getattr(st, 'module', None) or '', a_.name))
             return None
+        if isinstance(st, (ast.Nonlocal, ast.Global)):
+            # names of an enclosing scope: the closure's environment is the enclosing function's own (shared) environment when the
+            # nested function was defined in it, so a store goes where the name lives
+            for nm_ in st.names:
+                env.setdefault('#nonlocal', set()).add(nm_)
+            return None
         if isinstance(st, ast.With):
             # with E as v: the context manager of a stream is the stream itself; an object of the module with __enter__ is entered.
             # __exit__ is modelled for objects of the module only (called on normal and exceptional exit, its result ignored)
@@ -2386,6 +2457,14 @@ class Interp:
         h = self.h
         if isinstance(t, ast.Name):
             env[t.id] = value
+            if t.id in env.get('#nonlocal', ()):
+                o_ = env.get('#outer')
+                while o_ is not None:
+                    if t.id in o_ or o_.get('#outer') is None:
+                        o_[t.id] = value
+                        if t.id not in o_.get('#nonlocal', ()):
+                            break
+                    o_ = o_.get('#outer')
         elif isinstance(t, ast.Attribute):
             self.store_attr(self.ev(t.value, env, cls), t.attr, value, cls)
         elif isinstance(t, ast.Subscript):
